@@ -150,6 +150,16 @@ pub fn alphabet_texts() -> Vec<&'static str> {
     r#"date and time("2021-02-03T10:11:12Z")"#,
     r#"date and time("2021-02-03T11:11:12+01:00")"#,
     r#"date and time("2021-02-04T00:00:00")"#,
+    // one instant on two calendar dates; neighbours of it
+    r#"date and time("2021-01-01T23:00:00-05:00")"#,
+    r#"date and time("2021-01-02T04:00:00Z")"#,
+    r#"date and time("2021-01-02T13:00:00+09:00")"#,
+    r#"date and time("2021-01-02T04:00:01Z")"#,
+    r#"date and time("2021-01-01T22:59:59-05:00")"#,
+    r#"time("23:00:00-05:00")"#,
+    r#"time("04:00:00Z")"#,
+    r#"time("08:00:00Z")"#,
+    r#"time("12:00:00Z")"#,
     r#"duration("P1D")"#,
     r#"duration("PT24H")"#,
     r#"duration("PT1H")"#,
